@@ -266,7 +266,9 @@ def run(ctx):
         # metadata for a new client is its initial queue
         if inserts:
             v = strip_sym(sy.operand(inserts[0].args[2]))
-            okm = v[0] == "agg" and v[1] == "tuple" and len(v[3]) == 3 and sym_is_call(v[3][2], "generate_metadata_messages") and strip_sym(v[3][1])[0] == "agg" and strip_sym(v[3][1])[2] == "None"
+            # (connection, no parked remainder, metadata messages) — as a tuple or as a private per-client struct
+            parts = [strip_sym(x) for x in v[3]] if v[0] == "agg" and len(v[3]) == 3 else []
+            okm = len(parts) == 3 and sum(1 for x in parts if sym_is_call(x, "generate_metadata_messages")) == 1 and sum(1 for x in parts if x[0] == "agg" and x[2] == "None") == 1 and sum(1 for x in parts if "accept" in sym_str(x)) == 1
             chk.ob("C11.d", f"{rt.path} [new client queue]", okm, "a new client starts with (conn, no remainder, metadata messages)" if okm else "a new client's queue does not start with the known metadata", inserts[0].loc())
         # client tokens are never reused: a token that is still some client's key would make clients.insert replace
         # (in this code: panic on) a live client
